@@ -16,9 +16,9 @@ def main():
     pid, wt, demo_cmd = sys.argv[1], sys.argv[2], sys.argv[3]
     others = sys.argv[4:]
     out = os.path.join(wt, "out")
-    dest = os.path.join("/verif/seeded", pid)
+    dest = os.path.join("/verif/seeded", pid + os.environ.get("SEEDED_SUFFIX", ""))
     os.makedirs(dest, exist_ok=True)
-    tmp_out = "/tmp/mut/%s.out" % pid
+    tmp_out = wt.rstrip("/") + ".out"
     if os.path.isdir(out):
         shutil.rmtree(tmp_out, ignore_errors=True)
         shutil.copytree(out, tmp_out)
